@@ -67,6 +67,13 @@ def cases():
     # split: user in the rule file, definition in an extra file and vice versa
     out.append({"id": "defined/in_body/split_user_in_file", "feature": "ref_in_body_split", "expect": "equiv_or_error", "name": "@inner", "pattern": pat, "inlined": inl, "macros": [body_outer, OTHER], "extra_macros": [inner], "where": "mixed"})
     out.append({"id": "defined/in_body/split_def_in_file", "feature": "ref_in_body_user_first", "expect": "equiv", "pattern": pat, "inlined": inl, "macros": [inner, OTHER], "extra_macros": [body_outer], "where": "mixed"})
+    # an undefined reference whose name contains characters outside [A-Za-z0-9_] (a typo of a defined name)
+    for nm in ("@oth-er", "@ot.her", "@oth+er"):
+        out.append({"id": f"undefined/odd_name/{nm}", "feature": "undef_odd_name", "expect": "error", "name": nm, "pattern": ["push", {"mov": [nm, "b"]}, "@other"], "macros": [OTHER], "where": "file"})
+        out.append({"id": f"undefined/odd_name_item/{nm}", "feature": "undef_odd_name", "expect": "error", "name": nm, "pattern": ["push", nm, "@other"], "macros": [OTHER], "where": "extra"})
+    # a badly named macro while the pattern contains no '@' at all (the author forgot the '@' everywhere)
+    for where in ("file", "extra"):
+        out.append({"id": f"badname_no_at_anywhere/{where}", "feature": "bad_macro_name", "expect": "error", "name": "noat", "pattern": ["push", {"mov": ["noat"]}], "macros": [{"name": "noat", "pattern": "rax"}], "where": where})
     # macro whose own name does not start with '@'
     for where in ("file", "extra"):
         out.append({"id": f"badname/{where}", "feature": "bad_macro_name", "expect": "error", "name": "noat", "pattern": ["push", "@other"], "macros": [OTHER, {"name": "noat", "pattern": "mov"}], "where": where})
